@@ -58,6 +58,17 @@ def yield : Nat → Tree → List String
   | _ + 1, .leaf s => [leafText s]
   | _ + 1, .err s => [leafText s]
 
+mutual
+/-- terminal yield, structurally -/
+def yieldT : Tree → List String
+  | .node _ ks => yieldL ks
+  | .leaf s => [leafText s]
+  | .err s => [leafText s]
+def yieldL : List Tree → List String
+  | [] => []
+  | t :: ts => yieldT t ++ yieldL ts
+end
+
 def maxInt64 : Int := 9223372036854775807
 
 def compOps : List String := ["=", "<>", "<", ">", "<=", ">="]
@@ -71,12 +82,6 @@ def opTok (op : String) : String :=
   else if op == "<=" then "T__15" else if op == ">=" then "T__16" else if op == "=~" then "T__17" else if op == "+" then "T__18"
   else if op == "-" then "T__19" else if op == "/" then "T__20" else if op == "%" then "T__21" else if op == "^" then "T__22"
   else if op == "*" then "T__9" else "T__1"
-
-/-- a property key / name that is written bare (cypher.CanEmitBarePropertyKeyName, ASCII part) -/
-def simpleKey (k : String) : Bool :=
-  match k.toList with
-  | c :: cs => (c.isAlpha || c == '_') && cs.all (fun x => x.isAlphanum || x == '_')
-  | [] => false
 
 section TreeOf
 variable (N : Names)
